@@ -1,0 +1,172 @@
+//go:build verif
+
+package process
+
+// Verification hooks (build tag verif): canonical dumps of names, forms and types, used by the
+// correspondence harness in /verif. Add-only; not compiled without the tag.
+
+import (
+	"grits/types"
+	"strings"
+)
+
+func VerifDumpMode(m types.Modality) string {
+	if m == nil {
+		return "nil"
+	}
+	switch m.(type) {
+	case *types.ReplicableMode:
+		return "rep"
+	case *types.MulticastMode:
+		return "mul"
+	case *types.AffineMode:
+		return "aff"
+	case *types.LinearMode:
+		return "lin"
+	case *types.UnsetMode:
+		return "unset"
+	case *types.InvalidMode:
+		return "invalid:" + strings.TrimPrefix(m.String(), "invalid: ")
+	}
+	return "?"
+}
+
+func VerifDumpType(t types.SessionType) string {
+	if t == nil {
+		return "_"
+	}
+	switch q := t.(type) {
+	case *types.LabelType:
+		return "(N " + q.Label + " " + VerifDumpMode(q.Mode) + ")"
+	case *types.UnitType:
+		return "(1 " + VerifDumpMode(q.Mode) + ")"
+	case *types.SendType:
+		return "(* " + VerifDumpMode(q.Mode) + " " + VerifDumpType(q.Left) + " " + VerifDumpType(q.Right) + ")"
+	case *types.ReceiveType:
+		return "(-o " + VerifDumpMode(q.Mode) + " " + VerifDumpType(q.Left) + " " + VerifDumpType(q.Right) + ")"
+	case *types.SelectLabelType:
+		return "(+ " + VerifDumpMode(q.Mode) + verifDumpOptions(q.Branches) + ")"
+	case *types.BranchCaseType:
+		return "(& " + VerifDumpMode(q.Mode) + verifDumpOptions(q.Branches) + ")"
+	case *types.UpType:
+		return "(up " + VerifDumpMode(q.From) + " " + VerifDumpMode(q.To) + " " + VerifDumpType(q.Continuation) + ")"
+	case *types.DownType:
+		return "(dn " + VerifDumpMode(q.From) + " " + VerifDumpMode(q.To) + " " + VerifDumpType(q.Continuation) + ")"
+	}
+	return "?"
+}
+
+func verifDumpOptions(opts []types.Option) string {
+	var b strings.Builder
+	for _, o := range opts {
+		b.WriteString(" (" + o.Label + " " + VerifDumpType(o.SessionType) + ")")
+	}
+	return b.String()
+}
+
+// (n ident S|- +|-|_ type)
+func VerifDumpName(n Name, withTypes bool) string {
+	self := "-"
+	if n.IsSelf {
+		self = "S"
+	}
+	pol := "_"
+	if n.ExplicitPolarity != nil {
+		switch *n.ExplicitPolarity {
+		case types.POSITIVE:
+			pol = "+"
+		case types.NEGATIVE:
+			pol = "-"
+		}
+	}
+	ty := "_"
+	if withTypes {
+		ty = VerifDumpType(n.Type)
+	}
+	id := n.Ident
+	if id == "" {
+		id = "\"\""
+	}
+	return "(n " + id + " " + self + " " + pol + " " + ty + ")"
+}
+
+func VerifDumpNames(ns []Name, withTypes bool) string {
+	parts := make([]string, len(ns))
+	for i := range ns {
+		parts[i] = VerifDumpName(ns[i], withTypes)
+	}
+	return "(" + strings.Join(parts, " ") + ")"
+}
+
+func VerifDumpForm(f Form, withTypes bool) string {
+	d := func(n Name) string { return VerifDumpName(n, withTypes) }
+	switch p := f.(type) {
+	case *SendForm:
+		return "(send " + d(p.to_c) + " " + d(p.payload_c) + " " + d(p.continuation_c) + ")"
+	case *ReceiveForm:
+		return "(recv " + d(p.payload_c) + " " + d(p.continuation_c) + " " + d(p.from_c) + " " + VerifDumpForm(p.continuation_e, withTypes) + ")"
+	case *SelectForm:
+		return "(sel " + d(p.to_c) + " " + p.label.L + " " + d(p.continuation_c) + ")"
+	case *CaseForm:
+		var b strings.Builder
+		b.WriteString("(case " + d(p.from_c))
+		for _, br := range p.branches {
+			b.WriteString(" (" + br.label.L + " " + d(br.payload_c) + " " + VerifDumpForm(br.continuation_e, withTypes) + ")")
+		}
+		b.WriteString(")")
+		return b.String()
+	case *NewForm:
+		return "(new " + d(p.new_name_c) + " " + VerifDumpForm(p.body, withTypes) + " " + VerifDumpForm(p.continuation_e, withTypes) + ")"
+	case *CloseForm:
+		return "(close " + d(p.from_c) + ")"
+	case *WaitForm:
+		return "(wait " + d(p.to_c) + " " + VerifDumpForm(p.continuation_e, withTypes) + ")"
+	case *ForwardForm:
+		return "(fwd " + d(p.to_c) + " " + d(p.from_c) + ")"
+	case *SplitForm:
+		return "(split " + d(p.channel_one) + " " + d(p.channel_two) + " " + d(p.from_c) + " " + VerifDumpForm(p.continuation_e, withTypes) + ")"
+	case *CallForm:
+		pt := "_"
+		if withTypes {
+			pt = VerifDumpType(p.ProviderType)
+		}
+		return "(call " + p.functionName + " " + VerifDumpNames(p.parameters, withTypes) + " " + pt + ")"
+	case *CastForm:
+		return "(cast " + d(p.to_c) + " " + d(p.continuation_c) + ")"
+	case *ShiftForm:
+		return "(shift " + d(p.continuation_c) + " " + d(p.from_c) + " " + VerifDumpForm(p.continuation_e, withTypes) + ")"
+	case *DropForm:
+		return "(drop " + d(p.client_c) + " " + VerifDumpForm(p.continuation_e, withTypes) + ")"
+	case *PrintForm:
+		return "(print " + p.label.L + " " + VerifDumpForm(p.continuation_e, withTypes) + ")"
+	case *BranchForm:
+		return "(branch " + p.label.L + " " + d(p.payload_c) + " " + VerifDumpForm(p.continuation_e, withTypes) + ")"
+	}
+	return "?"
+}
+
+// One line per declaration, in the order the parser returns them.
+func VerifDumpProgram(processes []*Process, assumed []Name, env *GlobalEnvironment, withTypes bool) []string {
+	var out []string
+	if env != nil && env.Types != nil {
+		for _, t := range *env.Types {
+			out = append(out, "type "+t.Name+" "+VerifDumpMode(t.Modality)+" "+VerifDumpType(t.SessionType))
+		}
+	}
+	if env != nil && env.FunctionDefinitions != nil {
+		for _, f := range *env.FunctionDefinitions {
+			ep := "_"
+			if f.UsesExplicitProvider {
+				ep = VerifDumpName(f.ExplicitProvider, withTypes)
+			}
+			out = append(out, "fun "+f.FunctionName+" "+ep+" "+VerifDumpNames(f.Parameters, true)+" "+VerifDumpType(f.Type)+" "+VerifDumpForm(f.Body, withTypes))
+		}
+	}
+	for _, a := range assumed {
+		out = append(out, "assume "+VerifDumpName(a, true))
+	}
+	for _, p := range processes {
+		out = append(out, "proc "+VerifDumpNames(p.Providers, false)+" "+VerifDumpType(p.Type)+" "+VerifDumpForm(p.Body, withTypes))
+	}
+	return out
+}
